@@ -445,6 +445,48 @@ def run(ctx):
             raise vlib.Undecided("vacuous: no store-level round-trip run was judged")
     finally:
         spool.close()
+    # ---- several stores in one process (every database has its own store, lock and flusher): the codec shares nothing between
+    # them.  One session with real timers under the race detector: the selected database's ticker serialises its dirty pages
+    # while CREATE DATABASE serialises another store's pages on the session's goroutine; a data race whose two accesses are
+    # both inside the page codec means two stores share serialisation state (then no page is sure to read back as written)
+    import re
+    import subprocess
+    try:
+        rbin = vlib.build_harness(ctx, "twostores", race=True)
+    except vlib.Undecided as e:
+        raise vlib.Undecided("race build failed: %s" % e)
+    wd = ctx.sub("twostores")
+    p = subprocess.run([rbin, str(24 if ctx.quick() else 90)], cwd=wd, capture_output=True, text=True, timeout=900,
+                       env=dict(os.environ, GORACE="halt_on_error=0 history_size=3"))
+    try:
+        summary = json.loads(p.stdout.strip().splitlines()[-1])
+    except Exception:
+        raise vlib.Undecided("twostores driver gave no answer (rc=%s): %s" % (p.returncode, (p.stdout + p.stderr)[-1500:]))
+    codec = re.compile(r"storage\.\(\*btreeNode\)\.(encode|decode)\w*\(|storage\.(encode|decode|write)\w*\(|storage\.\(\*fileStore\)\.update\(")
+    n_codec, n_other = 0, 0
+    for rep in re.split(r"={18}\n", p.stderr):
+        if "DATA RACE" not in rep:
+            continue
+        # the two accesses: the innermost frame of each stack (first line after "... by goroutine ...:")
+        tops = re.findall(r"(?:Write|Read|Previous write|Previous read) at [^\n]*\n\s+(\S+)", rep)
+        if len(tops) >= 2 and all(codec.search(t + "(") for t in tops[:2]):
+            n_codec += 1
+            if n_codec == 1:
+                vlib.report_violation(ctx, dict(kind="codec-data-race", report=rep[:3000], detail=[
+                    "two stores of one process share state inside the page codec: unsynchronised accesses in %s and %s (race detector, "
+                    "session with real flush timers creating databases while the selected one is being flushed)" % (tops[0], tops[1])]),
+                    signature="codec-race:" + tops[0])
+        else:
+            n_other += 1
+    if not summary.get("ok"):
+        if summary.get("viol"):
+            vlib.report_violation(ctx, dict(kind="two-stores", detail=[summary["viol"]], summary=summary), signature="two-stores:" + summary["viol"][:60])
+        elif not ctx.violations:
+            raise vlib.Undecided("twostores driver failed: %s" % summary.get("err"))
+    cov["two_stores_race_run"] = dict(databases=summary.get("databases"), rows=summary.get("rows"), codec_race_reports=n_codec, other_race_reports=n_other)
+    if n_other:
+        ctx.note("%d data-race reports outside the page codec in the several-stores run (CREATE DATABASE against its own freshly started ticker: "
+                 "outside C12)" % n_other)
     if cov["drift"]:
         ctx.note("%d replayed scenarios: cache hit/miss differed from the specification (observable results identical)" % cov["drift"])
     cov["exhaustive"] = True
